@@ -5,13 +5,15 @@ regex    : the regular expression literal of keylog_reader.get_key_from_line is 
 fields   : Key.__init__'s field extraction (split on ' ') is checked on the whole line language with z3 strings.
 consumers: TLS and QUIC pipelines with the key-log entries permuted (solver-chosen permutation), duplicated and mixed with
            unrelated entries: the export must equal the canonical one.
+dsbblock : DecryptionSecretBlock.unpack on a block with symbolic content and every secrets length 0..9 (thorough 0..24): the text handed
+           on is exactly the secrets bytes (no padding), options are parsed after the padding.
 delivery : main.run with the same secrets in a file, in one or several decryption-secrets blocks, before or after the packets,
            file + DSB, DSB only without -s from any working directory (os.path.exists symbolic), LF/CRLF, comments, blank lines,
            upper-case hex: identical writer calls."""
 import random
 
 VALIDATE = False
-SITES = ["regex-recognised", "nss-lines-accepted", "fields-extracted", "no-exception", "consumers-order-independent", "delivery-independent"]
+SITES = ["regex-recognised", "nss-lines-accepted", "fields-extracted", "no-exception", "consumers-order-independent", "delivery-independent", "dsb-secrets-exact"]
 MODELS = ["z3 regular expressions / sequences for the line language", "ideal cryptography etc. as C01/C02 for the consumer and delivery harnesses",
           "file system and capture reader stubbed in the delivery harness; os.path.exists of the default key-log path is a symbolic boolean"]
 ASSUMPTIONS = ["NSS key log line = label, one space, 64 hex digits, one space, an even number >= 2 of hex digits, either case",
@@ -28,6 +30,7 @@ DELIVERIES = ["file", "file-all-upper", "file-crlf-comments-upper", "dsb-first",
 
 def configs(tier, seed):
     out = [{"harness": "regex", "name": "regex-inclusion", "mode": "real"}, {"harness": "fields", "name": "field-extraction", "mode": "real"}]
+    out += [{"harness": "dsbblock", "name": "dsb-block-" + ("le" if le else "be"), "le": le, "n": 9 if tier == "quick" else 24} for le in (True, False)]
     tls = [("TLS12", 0x009c, "TLS_RSA_WITH_AES_128_GCM_SHA256"), ("TLS13", 0x1301, "TLS_AES_128_GCM_SHA256"), ("TLS10", 0x002f, "TLS_RSA_WITH_AES_128_CBC_SHA")]
     for v, code, name in tls:
         for first in (range(4) if v == "TLS13" else [None]):
@@ -49,7 +52,7 @@ def configs(tier, seed):
 def bounds(tier):
     return {"regex/fields": "the whole line language (unbounded strings)", "consumers": "all permutations of the connection's key-log entries, one duplicate, "
             "unrelated entries (other client random; EXPORTER_SECRET for the same client random) at solver-chosen positions",
-            "delivery": DELIVERIES, "outside": "key logs with more than one secret for the same (label, client random)"}
+            "delivery": DELIVERIES, "dsbblock": "secrets length 0..%d, options 0/4/8 bytes, every content byte symbolic, both byte orders" % (9 if tier == "quick" else 24), "outside": "key logs with more than one secret for the same (label, client random)"}
 
 
 # ---- regex --------------------------------------------------------------------------------------------------------------------
@@ -386,8 +389,84 @@ def _run_delivery(cfg):
     return explore_cfg(scenario, cfg, timeout_ms=60000, sample_paths=1)
 
 
+def _run_dsbblock(cfg):
+    """tlexport.dpkt_dsb.DecryptionSecretBlock.unpack on a block with symbolic content: the secrets text handed on (pkt_data) is exactly
+    the secrets_length bytes after the fixed header - no padding, nothing missing - and the options start after the padding.
+    dpkt's struct-level header parsing and option parsing are modelled (header fields symbolic / recorded)."""
+    from tlv.sx import shims
+    from tlv.sx.core import ctx, sym_int, sym_choice
+    from tlv.sx.symbytes import sym_bytes, as_symbytes
+    from tlv.harness.common import explore_cfg
+    import tlexport.dpkt_dsb as dd
+    import dpkt.pcapng as real
+    shims.install(dd)
+    cls = dd.DecryptionSecretBlockLE if cfg["le"] else dd.DecryptionSecretBlock
+    N = cfg["n"]
+
+    def scenario():
+        c = ctx()
+        slen = sym_choice("secrets_length", list(range(0, N + 1)))
+        padded = (slen + 3) // 4 * 4
+        optlen = sym_choice("options_length", [0, 4, 8])
+        total = 20 + padded + optlen
+        buf = sym_bytes("block", total)
+        stype = sym_int("secrets_type", 0, (1 << 32) - 1)
+        seen = {}
+
+        class NeedData(Exception):
+            pass
+
+        class PacketModel:
+            @staticmethod
+            def unpack(self, b):           # dpkt.Packet.unpack: fixed header fields through struct
+                self.type, self.len, self.secrets_type, self.secrets_length, self._len = 0x0A, total, stype, slen, total
+                self.data = b[20:]
+
+        class D:
+            Packet = PacketModel
+        D.NeedData = NeedData
+        saved = dd.dpkt
+        dd.dpkt = D
+        try:
+            blk = object.__new__(cls)
+            blk._do_unpack_options = lambda b, off: seen.setdefault("opts", (b, off))
+            try:
+                cls.unpack(blk, buf)
+            except Exception as e:
+                c.fail("no-exception", "%s: %s" % (type(e).__name__, e))
+                return {"outcome": "exception"}
+        finally:
+            dd.dpkt = saved
+        c.check(True, "no-exception")
+        got = blk.pkt_data
+        ok = len(got) == slen and (slen == 0 or as_symbytes(got) == buf[16:16 + slen])
+        c.check(ok, "dsb-secrets-exact", "secrets_length %d: %d bytes handed on" % (slen, len(got)))
+        c.check("opts" in seen and seen["opts"][1] == 16 + padded, "dsb-secrets-exact", "options parsed from offset %r, padded secrets end at %d" % (seen.get("opts", (0, None))[1], 16 + padded))
+        return {"outcome": "len %d" % slen, "validate": False}
+    return explore_cfg(scenario, cfg, timeout_ms=60000, sample_paths=1)
+
+
+def _replay_dsbblock(cfg, inp):
+    import struct
+    import tlexport.dpkt_dsb as dd
+    e = "<" if cfg["le"] else ">"
+    slen = inp.get("secrets_length", 0)
+    optlen = [0, 4, 8][inp.get("options_length", 0)]
+    raw = bytes.fromhex(inp["block"])
+    padded = (slen + 3) // 4 * 4
+    total = 20 + padded + optlen
+    body = raw[16:16 + padded]
+    opts = {0: b"", 4: struct.pack(e + "HH", 0, 0), 8: struct.pack(e + "HH", 1, 0) + struct.pack(e + "HH", 0, 0)}[optlen]
+    buf = struct.pack(e + "IIII", 0x0A, total, inp.get("secrets_type", 0), slen) + body + opts + struct.pack(e + "I", total)
+    try:
+        blk = (dd.DecryptionSecretBlockLE if cfg["le"] else dd.DecryptionSecretBlock)(buf)
+    except Exception as ex:
+        return {"reproduced": True, "why": "exception %s: %s" % (type(ex).__name__, ex)}
+    return {"reproduced": bytes(blk.pkt_data) != body[:slen], "handed_on": bytes(blk.pkt_data).hex(), "secrets": body[:slen].hex()}
+
+
 def run_config(cfg):
-    return {"regex": _run_regex, "fields": _run_fields, "consumers": _run_consumers, "delivery": _run_delivery}[cfg["harness"]](cfg)
+    return {"regex": _run_regex, "fields": _run_fields, "consumers": _run_consumers, "delivery": _run_delivery, "dsbblock": _run_dsbblock}[cfg["harness"]](cfg)
 
 
 # ---- replays ------------------------------------------------------------------------------------------------------------------
@@ -406,6 +485,8 @@ def replay(cfg, viol):
         return _replay_delivery(cfg, inp)
     if h == "consumers":
         return _replay_consumers(cfg, inp)
+    if h == "dsbblock":
+        return _replay_dsbblock(cfg, inp)
     return {"reproduced": None}
 
 
